@@ -340,8 +340,12 @@ class _FState(AH._State):
             detail = f'expected failure after {expect_j} of {len(exps)} chunks; file={os.path.getsize(datafile)} limit={limit}'
             # keep going to see what state it left, but the call had to raise
             raise Viol('fault.no_exception', tag, detail)
+        unknown_j = False
         if not must_raise and exc is not None:
-            raise Viol('fault.control_raised', f'{tag}:{type(exc).__name__}', str(exc)[:300])
+            # the call failed for a reason this run did not inject (whether that call should have been accepted is
+            # C03's subject): C09 still owes an openable array holding exactly the completed chunks - some prefix
+            self.probe('call_without_injected_fault_raised')
+            unknown_j = True
         try:
             fresh = self.darr.Array(self.path)
         except Exception as e:
@@ -352,6 +356,12 @@ class _FState(AH._State):
         except DecodeError as e:
             raise Viol('fault.decoder', f'{tag}:{str(e).split(":")[0]}', str(e))
         got = fresh[:]
+        if unknown_j:
+            for jj in range(len(exps), -1, -1):
+                alt = np.concatenate([m] + exps[:jj]).astype(m.dtype, copy=False) if jj else m
+                if D.arr_equal(got, alt)[0]:
+                    expected, expect_j = alt, jj
+                    break
         ok, why = D.arr_equal(got, expected)
         if not ok:
             cls = 'wrong'
@@ -719,12 +729,22 @@ class _RFState(RH._RState):
         expected = self.L + exps[:expect_j]
         if must_raise and exc is None:
             raise Viol('fault.no_exception', tag, f'expected failure after {expect_j} of {len(exps)} items')
-        if not must_raise and exc is not None:
-            raise Viol('fault.control_raised', f'{tag}:{type(exc).__name__}', str(exc)[:300])
+        unknown_j = not must_raise and exc is not None
+        if unknown_j:
+            # failed for a reason this run did not inject (C04's subject): any prefix of completed subarrays
+            self.probe('call_without_injected_fault_raised')
         try:
             fresh = self.darr.RaggedArray(self.path)
         except Exception as e:
             raise Viol('fault.fresh_open', f'{tag}:{type(e).__name__}', f'j={expect_j} {str(e)[:200]}')
+        if unknown_j:
+            try:
+                nfresh = len(fresh)
+            except Exception:
+                nfresh = None
+            if nfresh is not None and len(self.L) <= nfresh <= len(self.L) + len(exps):
+                expect_j = nfresh - len(self.L)
+                expected = self.L + exps[:expect_j]
         try:
             subs, v, i, top = decode_ragged_dir(self.path)
         except DecodeError as e:
